@@ -627,3 +627,57 @@ def fvar_optional_psname(ctx, repo):
 
 
 C02_EXTRA.append(fvar_optional_psname)
+
+
+# ---------------------------------------------------------------------------
+# COMP-skip: every composite-glyph walker skips the same number of bytes per flag
+# ---------------------------------------------------------------------------
+def _skip_map(fn, cenv):
+    out = {}
+    more = None
+    for st in ast.walk(fn):
+        if isinstance(st, ast.If) and isinstance(st.test, ast.BinOp) and isinstance(st.test.op, ast.BitAnd):
+            m = try_fold(st.test.right, cenv)
+            if not isinstance(m, int):
+                continue
+
+            def adv(stmts):
+                n = None
+                for s in stmts:
+                    if isinstance(s, ast.AugAssign) and isinstance(s.op, ast.Add) and isinstance(s.target, ast.Name) and isinstance(s.value, ast.Constant):
+                        n = (n or 0) + s.value.value
+                    elif isinstance(s, ast.Assign) and isinstance(s.value, ast.Subscript) and isinstance(s.value.slice, ast.Slice) and s.value.slice.upper is None and isinstance(s.value.slice.lower, ast.Constant) and norm(s.targets[0]) == norm(s.value.value):
+                        n = (n or 0) + s.value.slice.lower.value
+                return n
+
+            a = adv(st.body)
+            if a is None:
+                continue
+            e = None
+            if st.orelse and not (len(st.orelse) == 1 and isinstance(st.orelse[0], ast.If)):
+                e = adv(st.orelse)
+            out[m] = (a, e)
+        elif isinstance(st, ast.Assign) and norm(st.targets[0]) == "more" and isinstance(st.value, ast.BinOp) and isinstance(st.value.op, ast.BitAnd):
+            more = try_fold(st.value.right, cenv)
+    return out, more
+
+
+def composite_walkers(ctx, repo):
+    ctx.rule("COMP-skip", "every routine that walks composite-glyph records without decoding them (Glyph.getComponentNames, Glyph.trim, subset.remapComponentsFast) advances by the same byte count per flag as GlyphComponent.decompile consumes, and stops on the same MORE_COMPONENTS bit", floor=3)
+    gm = repo.mod("ttLib/tables/_g_l_y_f.py")
+    genv = module_env(repo, gm)
+    canon, cmore = _skip_map(gm.func("GlyphComponent.decompile").node, genv)
+    want = {0x0001: (4, 2), 0x0008: (2, None), 0x0040: (4, None), 0x0080: (8, None)}
+    ok = canon == want and cmore == 0x0020
+    ctx.ob("COMP-skip", "ttLib/tables/_g_l_y_f.py:GlyphComponent.decompile", f"flag -> bytes consumed {canon}, more = {cmore}", ok, "" if ok else f"TrueType composite record layout is {want}, MORE_COMPONENTS 0x0020")
+    sm = repo.mod("subset/__init__.py")
+    sites = [(gm, "Glyph.getComponentNames"), (gm, "Glyph.trim"), (sm, "remapComponentsFast")]
+    for mod, q in sites:
+        f = mod.func(q)
+        got, more = _skip_map(f.node, module_env(repo, mod))
+        got = {k: v for k, v in got.items() if k in canon}
+        ok = got == canon and more == cmore
+        ctx.ob("COMP-skip", f.where, f"flag -> bytes skipped {got}, more = {more}", ok, "" if ok else f"decompile consumes {canon}, more = {cmore}: the walker loses its place after such a component")
+
+
+C02_EXTRA.append(composite_walkers)
